@@ -102,12 +102,12 @@ def derived(vc):
     vc.ensure('C05/get_frequency/post', eq(fq.value, F['fmin'] + a * df))
 
 
-def frame_record(vc, prefix=''):
-    """A frame satisfying FI, as a field record (precondition of the conversion methods)."""
-    n, T = Int(prefix + 'fchans'), Int(prefix + 'tchans')
-    df, dt, fmin = Real(prefix + 'df'), Real(prefix + 'dt'), Real(prefix + 'fmin')
-    vc.assume(And(n >= 1, T >= 1, df > 0, dt > 0, fmin >= 0))
-    return mkobj(vc, FR, fchans=n, tchans=T, df=df, dt=dt, fmin=fmin), dict(n=n, T=T, df=df, dt=dt, fmin=fmin)
+def frame_record(vc, prefix='', asc=None):
+    """A complete frame satisfying FI (precondition of the conversion methods)."""
+    if asc is None:
+        asc = bool(vc.choose(2, 'ascending'))
+    f, p = frame_obj(vc, asc, prefix)
+    return f, dict(n=p['n'], T=p['T'], df=p['df'], dt=p['dt'], fmin=p['fmin'])
 
 
 @contract('C05', 'get_index_nearest', functions=[FR + '.get_index'])
@@ -190,3 +190,21 @@ def from_data(vc):
     i, j = Int('i'), Int('j')
     vc.ensure('C05/from_data/post/data-equal', Implies(And(i >= 0, i < T, j >= 0, j < n), eq(out.value.fields['data'].at((i, j)), data.at((i, j)))))
     vc.ensure('C05/from_data/post/data-is-a-copy', out.value.fields['data'].root() is not data.root())
+
+
+@contract('C05', 'axis_lengths_fp', functions=[FR + '._update_ts', FR + '._update_fs', FR + '.ts_ext'], mode='fp-relerr')
+def axis_lengths_fp(vc):
+    """The axes have exactly tchans / fchans (/ tchans+1) entries in floating point too (fp-relerr model)."""
+    asc = bool(vc.choose(2, 'ascending'))
+    f, p = frame_obj(vc, asc)
+    vc.assume(And(p['T'] <= 2 ** 30, p['n'] <= 2 ** 30))
+    with fp(vc):
+        o1 = vc.call(FR + '._update_ts', f)
+        o2 = vc.call(FR + '._update_fs', f)
+        te = vc.run(lambda: vc.interp.getattr(f, 'ts_ext'))
+    vc.ensure('C05/axes-fp/exc/none', And(o1.ok, o2.ok, te.ok))
+    if not (o1.ok and o2.ok and te.ok):
+        return
+    vc.ensure('C05/axes-fp/post/ts-has-tchans-entries', And(f.fields['ts'].ndim == 1, eq(f.fields['ts'].shape[0], p['T'])))
+    vc.ensure('C05/axes-fp/post/fs-has-fchans-entries', And(f.fields['fs'].ndim == 1, eq(f.fields['fs'].shape[0], p['n'])))
+    vc.ensure('C05/axes-fp/post/ts_ext-has-tchans+1-entries', eq(te.value.shape[0], p['T'] + 1))
